@@ -71,7 +71,7 @@ def stunChangePorts : Nat → Bytes → Nat
     if a.length ≤ 4 then 0 else
     let ty := be16 a 0
     let len := be16 a 2
-    (if ty = 3 ∧ len ≥ 4 ∧ be32 a 4 / 2 % 2 = 1 then 1 else 0) + stunChangePorts fuel (a.drop (4 + len))
+    (if ty = 3 ∧ len ≥ 4 ∧ be32 a 4 / 2 % 2 = 1 then 1 else 0) + stunChangePorts fuel (a.drop (4 + (len + 3) / 4 * 4))
 
 def appPayload (f : Bytes) : Bytes :=
   match ipProto f with
